@@ -24,7 +24,7 @@ pub fn def() -> CheckDef {
         run,
         rule: "every fourth case is a 'sibling churn' (5-9 data-bearing siblings created and removed in drawn orders); the others are seeded histories of mostly successful operations (structure, whole-stream writes, handle writes and set_len, metadata, reopen), <= 40 ops; the first few cases of a run are 'large' histories that force several FAT sectors, a DIFAT sector (V3, > 7.2 MB), several directory and MiniFAT sectors. After every successful mutating op the independent checker imgck judges rules R1-R10 on the byte image and its logical dump must equal the model. Non-trivial: >= 1 successful mutation and >= 1 image check; distinct = distinct (seam log, final image) hash.",
         assumptions: &["imgck (sim/src/imgck.rs) is an independent MS-CFB reader written from the specification; R5 for the root entry demands capacity (chain >= size), not equality", "sibling-order rule judged only for names from agreed case-mapping classes"],
-        cpu_limit_s: 120,
+        cpu_limit_s: 600,
         fault_kinds: "none (fault-free disk)",
         count_subruns: false,
         expect_probes: &["fat_sectors>=2", "difat_sector", "dir_sectors>=2", "minifat_sectors>=2", "ministream_sectors>=2", "free_sectors_present", "free_mini_sectors_present", "unallocated_entries_present", "node_with_two_siblings"],
